@@ -97,6 +97,9 @@ func convValue(v reflect.Value, depth int) (any, bool) {
 	case reflect.Uint32:
 		return u32(uint32(v.Uint())), true
 	case reflect.Int, reflect.Int64, reflect.Int32, reflect.Int16, reflect.Int8:
+		if v.Int() > 2147483647 { // TLC's integers are 32-bit: everything beyond is logged as 2^31 - 1
+			return 2147483647, true
+		}
 		return int(v.Int()), true
 	case reflect.String:
 		return ints([]byte(v.String())), true
